@@ -86,5 +86,16 @@ claim("C19", K64 + "The RNG is a bounded symbolic tape: random_mod / random_bits
 claim("C20", K8 + "sqrt / sqrt_vartime / checked / wrapping forms: all 8-bit inputs, neighbourhoods of perfect squares and top-heavy shapes at 2-3 "
       "limbs (thorough: all 16-bit inputs), boxed forms equal to fixed ones; oracle s*s <= x < (s+1)*(s+1).", T_K8, "DESIGN.md section 4 C20")
 
-NOT_APPLICABLE["C01"] = ("constant-time (2-safety over the optimised build): Kani models unoptimised MIR and exposes neither branch "
-                         "conditions nor addresses; the planned LLVM-IR relational engine (ctsym) is not built yet in this round")
+claim("C01", "Relational (2-safety) symbolic execution of the optimised LLVM IR (rustc -C opt-level=3, lto=fat) of one wrapper per public "
+      "non-vartime operation and width: all secret operands symbolic, public parameters concrete and enumerated; at every branch "
+      "condition, memory address, mem-intrinsic length and variable-divisor division operand z3 decides whether two admissible secrets "
+      "can make the value differ. Leaks are replayed on the machine code (valgrind lackey instruction/address traces of the two witness "
+      "secrets) before being reported. Bounds: the listed wrappers (Limb, U64..U256, I128, MontyForm<4>, BoxedUint 2 limbs), the listed "
+      "public values, IR level (machine-code lowering of select/arithmetic is outside), non-panicking runs.",
+      "relational symbolic execution of rustc's optimised LLVM IR with z3 (own engine ctsym); translator validated per run against native execution; valgrind-lackey replay",
+      "DESIGN.md section 2.3 and 4 C01",
+      note="Trusted: rustc's LLVM-IR emission, the IR interpreter in /verif/ctsym (its concrete mode is compared with the native release binary on "
+           "every wrapper in every run), z3 5.1. Assumes panic guards are not taken (totality is C11), division by constants is strength-reduced, "
+           "and integer select is lowered branch-free. Single path: after a recorded known leak, later leak points are examined only on the "
+           "sub-space agreeing with the first witness (or not at all for the safegcd core).",
+      engine="ctsym")
